@@ -108,6 +108,7 @@ pub fn dispatch(t: &[&str]) -> String {
         }
         // seq <kind> <hex> <op>... : parse, apply the operations, report the final state and its encoding
         "seq" => seq(t),
+        "seqw" => seqw(t),
         // hevc <chunk_size> <hex>: hevc_parser's view of a stream: NALs with frame indices, ordered frames
         "hevc" => hevc_view(t),
         // rpufile <chunk_size> <hex>: write the bytes to a temp file and read it with parse_rpu_file
@@ -134,6 +135,8 @@ pub fn dispatch(t: &[&str]) -> String {
         }
         // genbase <profile 0|1|2> <cm40 0|1>: the RPU generated for the empty config of that profile / CM version
         // (second frame of a two-frame run: no scene cut), as a NAL
+        // C API through the extern "C" entry points
+        "capi" => crate::capi::capi(t),
         "genbase" => {
             use dolby_vision::rpu::generate::{GenerateConfig, GenerateProfile, VideoShot};
             use dolby_vision::rpu::vdr_dm_data::CmVersion;
@@ -262,6 +265,25 @@ fn seq(t: &[&str]) -> String {
     }
 }
 
+
+// seqw <kind> <hex> <op>... : as `seq`, then all four Rust write calls; stops at the first failing op
+// and reports how many succeeded: ok <n ops ok> <json> <rpu> <nal> <av1> <av1c>   (each hex or `errw`)
+fn seqw(t: &[&str]) -> String {
+    let mut rpu = match crate::parse_kind(t[1], &unhex(t[2])) {
+        Ok(r) => r,
+        Err(_) => return "err parse".into(),
+    };
+    let mut codes: Vec<String> = Vec::new();
+    for op in t[3..].iter() {
+        codes.push(if apply_op(&mut rpu, op).is_ok() { "0".into() } else { "-1".into() });
+    }
+    let js = serde_json::to_string(&rpu).unwrap();
+    let w = |k: &str| match crate::write_kind(k, &rpu) {
+        Ok(o) => hex(&o),
+        Err(_) => "errw".to_string(),
+    };
+    format!("ok {} {} {} {} {} {}", if codes.is_empty() { "-".to_string() } else { codes.join(",") }, js, w("rpu"), w("nal"), w("av1"), w("av1c"))
+}
 
 struct Collect {
     input: std::path::PathBuf,
